@@ -60,6 +60,7 @@ type Machine struct {
 	inLibSig bool
 	hashInjective bool
 	nowT     *Term
+	context  string // nd.Context: the swept case, part of panic fingerprints
 }
 
 type observed struct {
